@@ -20,13 +20,14 @@ UNITS = {
     "Mos": dict(target=("prim", "Mos", {}), ports=[("d", 1), ("g", 1), ("s", 1), ("b", 1)]),
     "Npn": dict(target=("prim", "Bipolar", {}), ports=[("c", 1), ("b", 1), ("e", 1)]),
     "Ext3": dict(target=("ext", "E3", {"k": 1}), ports=[("a", 1), ("b", 1), ("c", 1)]),
+    "ExtNames": dict(target=("ext", "EN", {"k": 2}), ports=[("i", 1), ("units", 1), ("inner", 1), ("x", 1)]),  # ports named like the generators' own attributes
     "ModBus": dict(target=("mod", "UnitM"), ports=[("a", 1), ("b", 1), ("w", 2)]),
     "ModBundle": dict(target=("mod", "UnitB"), ports=[("a", 1), ("b", 1)], bports=[("t", "B1")]),
 }
 
 
 def unit_modules():
-    exts = {"E3": ext_leaf([("a", 1), ("b", 1), ("c", 1)]), "P1": ext_leaf([("a", 1)]), "P2": ext_leaf([("a", 2)])}
+    exts = {"E3": ext_leaf([("a", 1), ("b", 1), ("c", 1)]), "EN": ext_leaf([("i", 1), ("units", 1), ("inner", 1), ("x", 1)]), "P1": ext_leaf([("a", 1)]), "P2": ext_leaf([("a", 2)])}
     um = {"name": "UnitM", "style": "class", "decls": [
         ("port", "a", 1, "none"), ("port", "b", 1, "none"), ("port", "w", 2, "none"),
         ("inst", "r", ("prim", "R", {"r": 5}), [("p", sig("a")), ("n", sig("b"))]),
@@ -48,16 +49,16 @@ def expected_design(uname, A, B, n, wrapper=False):
         decls.append(("bport", bp, bn, False, None))
     if wrapper or n == 1:
         conns = [(p, sig(p)) for p, w in u["ports"]] + [(bp, ("b", bp)) for bp, bn in u.get("bports", [])]
-        decls.append(("inst", "inner", u["target"], conns))
+        decls.append(("inst", "innerinst", u["target"], conns))
     else:
-        decls.append(("sig", "i", n - 1))
+        decls.append(("sig", "ichain", n - 1))
         for k in range(n):
             conns = []
             for p, w in u["ports"]:
                 if p == A:
-                    e = sig(A) if k == 0 else (idx(sig("i"), k - 1) if n - 1 > 1 else sig("i"))
+                    e = sig(A) if k == 0 else (idx(sig("ichain"), k - 1) if n - 1 > 1 else sig("ichain"))
                 elif p == B:
-                    e = sig(B) if k == n - 1 else (idx(sig("i"), k) if n - 1 > 1 else sig("i"))
+                    e = sig(B) if k == n - 1 else (idx(sig("ichain"), k) if n - 1 > 1 else sig("ichain"))
                 else:
                     e = sig(p)
                 conns.append((p, e))
@@ -81,6 +82,8 @@ def _one(item):
     from ..build import build, Built, build_ext, build_module, build_bundle, target_of
 
     gen, uname, A, B, n, how = item
+    pre_elab = how.endswith("+elab")  # the unit has been elaborated on its own before it is handed to the generator
+    how = how.replace("+elab", "")
     u = UNITS[uname]
     exp = expected_design(uname, A, B, n, wrapper=(gen == "wrapper"))
     # the real unit
@@ -91,6 +94,8 @@ def _one(item):
         base["top"] = "UnitM"
         built = build(base)
         unit = target_of(base, u["target"], built)
+        if pre_elab:
+            h.elaborate(unit)
     except Exception as e:
         return ("harness", short_exc(e))
     widths = dict(u["ports"])
@@ -128,6 +133,23 @@ def _one(item):
     ren = {f"{bp}.x": f"{bp}_x" for bp, _ in u.get("bports", [])}
     ren.update({f"{bp}.y": f"{bp}_y" for bp, _ in u.get("bports", [])})
     rpart = frozenset(frozenset((n_[0], ren.get(n_[1], n_[1]) if n_[0] == () else n_[1], n_[2]) for n_ in c) for c in rpart)
+    # the generators may name their instances as they like (units_k / inner, or something else when a unit port has that
+    # name): compare modulo the base name of the top-level instances
+    import re as _re
+
+    tops = sorted({p_[0] for p_ in odev})
+    m_ = [_re.fullmatch(r"(.+?)_(\d+)", t) for t in tops]
+    ren_i = {}
+    if n > 1 and gen != "wrapper" and all(m_) and len({x.group(1) for x in m_}) == 1:
+        ren_i = {f"units_{x.group(2)}": x.group(0) for x in m_}
+    elif len(tops) == 1:
+        ren_i = {"innerinst": tops[0]}
+
+    def rp(path):
+        return (ren_i.get(path[0], path[0]),) + tuple(path[1:]) if path else path
+
+    rdev = {rp(p_): v for p_, v in rdev.items()}
+    rpart = frozenset(frozenset((rp(n_[0]), n_[1], n_[2]) for n_ in c) for c in rpart)
     d = observe.devices_agree(rdev, odev)
     if d:
         return ("bad", d)
@@ -146,6 +168,10 @@ def run(ctx):
                 for how in ("name", "signal"):
                     items.append(("series", uname, A, B, n, how))
         items.append(("wrapper", uname, None, None, 1, "-"))
+        if u["target"][0] == "mod":
+            items.append(("wrapper", uname, None, None, 1, "-+elab"))
+            for n in (1, 2, 3):
+                items.append(("series", uname, scal[0], scal[1], n, "name+elab"))
     for n in range(1, N + 1):
         items.append(("mosstack", "Mos", "d", "s", n, "-"))
     res = ctx.pmap(_one, items, chunk=10)
